@@ -3,6 +3,7 @@ CONSTANTS
   NSet = {0}
   ClsSet = {"b8"}
   MaxWrites = 0
+  WritePats = {}
   EmitOn = FALSE
 INIT InitTables
 NEXT NextTables
